@@ -343,22 +343,22 @@ func flagBytes(e *Env, vr *ssa.Function) {
 	if enc == nil {
 		return
 	}
-	// in the proof loop: i == 0 (last record) hashes {0}, otherwise proofs[rec+1] then {1}
+	// the two hashing arms of the proof loop, identified by their shape
+	lw, mw := encodeArms(enc)
 	for _, v := range []struct {
-		cfg  gate.Assumption
+		ws   []*ssa.Call
 		want string
 		name string
-	}{
-		{gate.Assumption{ProvPat: "phi((↺ + const:1)|const:0)", Value: "0"}, "0", "last"},
-		{gate.Assumption{ProvPat: "phi((↺ + const:1)|const:0)", Value: "0", NotEqual: true}, "1", "not-last"},
-	} {
-		ctx := gate.New(e.P, e.P.VTA(), v.cfg)
-		got := flagStoresLoop(ctx, enc)
+	}{{lw, "0", "last"}, {mw, "1", "not-last"}} {
 		key := "mice.Encode:flag(" + v.name + ")"
-		if len(got) == 1 && got[0] == v.want {
+		got := "?"
+		if v.ws != nil {
+			got = flagOf(v.ws[len(v.ws)-1])
+		}
+		if got == v.want {
 			e.R.OK("TABLE", key, e.P.Pos(enc.Pos()), "the encoder hashes "+v.want+" for this record class, as validateRecord does")
 		} else {
-			e.R.Fail("TABLE", key, e.P.Pos(enc.Pos()), "encoder and decoder disagree on the domain-separation byte: encoder hashes "+strings.Join(got, ",")+" for "+v.name+" records")
+			e.R.Fail("TABLE", key, e.P.Pos(enc.Pos()), "encoder and decoder disagree on the domain-separation byte: encoder hashes "+got+" for "+v.name+" records")
 		}
 	}
 }
